@@ -252,7 +252,7 @@ Lemma issue_shape3 b t i op kind inner root gid key val exp :
   let b' := bapply b (t, EIssue i op kind inner root gid key val exp) in
   b_now b' = t /\ b_rets b' = b_rets b /\ b_done b' = b_done b /\ b_wt b' = b_wt b /\ b_cfgs b' = b_cfgs b /\
   (forall j, inst_of b' j = if hbcond b i kind inner val && (i =? j)
-                            then inst_of b i <| io_hb_ta := t |> <| io_hb_te := -1 |> <| io_hb_op := op |>
+                            then inst_of b i <| io_hb_ta := t |> <| io_hb_te := -1 |> <| io_hb_op := op |> <| io_hb_ok := false |>
                             else inst_of b j).
 Proof.
   cbn [bapply]. unfold hbcond.
@@ -327,8 +327,8 @@ Proof.
       * intros Hz. cbn in Hz. lia.
       * intros _. split; [|cbn; lia].
         exists (mkPend i kUpdate sHeartbeat root gid key val exp t None).
-        change (io_hb_op (inst_of b i <| io_hb_ta := t |> <| io_hb_te := -1 |> <| io_hb_op := op |>)) with op.
-        change (io_hb_ta (inst_of b i <| io_hb_ta := t |> <| io_hb_te := -1 |> <| io_hb_op := op |>)) with t.
+        change (io_hb_op (inst_of b i <| io_hb_ta := t |> <| io_hb_te := -1 |> <| io_hb_op := op |> <| io_hb_ok := false |>)) with op.
+        change (io_hb_ta (inst_of b i <| io_hb_ta := t |> <| io_hb_te := -1 |> <| io_hb_op := op |> <| io_hb_ok := false |>)) with t.
         rewrite Hp, Z.eqb_refl.
         unfold is_done. rewrite Hd. fold (is_done b op). repeat split; auto.
       * intros Es. cbn in Es |- *. pose proof (T6 i). lia.
@@ -538,7 +538,7 @@ Proof.
   assert (Hi : forall j, inst_of b' j = if i =? j then
             inst_of b i <| io_flag := true |> <| io_tok := v_stok (vinfo_of b (lr_val r)) |> <| io_acq_rev := lr_rev r |>
                         <| io_terms ::= Z.succ |> <| io_views ::= cons (v_stok (vinfo_of b (lr_val r)), lr_rev r) |>
-                        <| io_hb_ta := t |> <| io_hb_te := t |> <| io_hb_op := 0 |> else inst_of b j).
+                        <| io_hb_ta := t |> <| io_hb_te := t |> <| io_hb_op := 0 |> <| io_hb_ok := true |> else inst_of b j).
   { intros j. unfold b'. rewrite inst_of_upd. reflexivity. }
   destruct (l_rcfg _ IL gid r Hg) as [c Hcf]. rewrite Gi in Hcf.
   assert (Ecf : cfg_of b i = c) by (unfold cfg_of; rewrite Hcf; reflexivity).
